@@ -25,6 +25,7 @@ from xsdata.utils.constants import EMPTY_MAP, XML_TRUE
 from xsdata.utils.namespaces import generate_prefix, prefix_exists, split_qname
 
 XSI_NIL = (Namespace.XSI.uri, "nil")
+XMLNS_URI = "http://www.w3.org/2000/xmlns/"
 is_valid_name = functools.lru_cache(maxsize=512)(namespaces.is_ncname)
 
 
@@ -319,6 +320,9 @@ class EventHandler(abc.ABC):
             XmlWriterError: If the prefix is not a valid name, or the
                 declaration involves the reserved xml, xmlns prefixes.
         """
+        if uri == XMLNS_URI or (not prefix and uri == Namespace.XML.uri):
+            raise XmlWriterError(f"Invalid namespace declaration `{prefix}`: `{uri}`")
+
         if not prefix:
             return
 
